@@ -875,6 +875,26 @@ def _deviations(ctx, names):
 def run(ctx):
     from cuqiverif.core import MachineryError
     from cuqiverif import tlc
+    import concurrent.futures, os
+    # MapScale.tla (physical units of linear-Gaussian problems; optimisation route without exact gradient): small runs, started
+    # alongside the LinGauss runs, own work directories
+    mswd = lambda label: os.path.join(tlc.WORK, "MapScale-c15-%s-%d" % (label, os.getpid()))
+    mspool = concurrent.futures.ThreadPoolExecutor(max_workers=2)
+    msfut = {"main": mspool.submit(ctx.tlc, "MapScale", cfg="MapScale.%s.cfg" % ctx.tier, workers=2, timeout=1500, workdir=mswd("main")),
+             "dev": mspool.submit(ctx.tlc, "MapScale", cfg="MapScale.dev_AssembledDropsSmallEntries.cfg", workers=1, timeout=900,
+                                  expect_violation=True, workdir=mswd("dev"))}
+    try:
+        _run_main(ctx, msfut)
+    finally:
+        concurrent.futures.wait(list(msfut.values()))
+        mspool.shutdown()
+        for label in ("main", "dev"):
+            tlc.cleanup(mswd(label))
+
+
+def _run_main(ctx, msfut):
+    from cuqiverif.core import MachineryError
+    from cuqiverif import tlc
     res = ctx.tlc("LinGauss", cfg="LinGauss.map.%s.cfg" % ctx.tier, workers=16, timeout=1500)
     ctx.model_must_hold(res, "LinGauss.map")
     map_cases = res.cases
@@ -928,7 +948,30 @@ def run(ctx):
         check_mapproc(ctx, mp_cases, wdir)
     finally:
         tlc.cleanup(wdir)
+    # ---- MapScale.tla ----
+    from cuqiverif import c15_scale
+    msres = msfut["main"].result()
+    ctx.model_must_hold(msres, "MapScale")
+    ms_cases = msres.cases
+    r2 = msfut["dev"].result()
+    if r2.ok or r2.violated != "ScalingLaw":
+        raise MachineryError("deviation AssembledDropsSmallEntries: expected TLC to violate ScalingLaw, got %r" % (r2.violated,))
+    ctx.observations.setdefault("deviations_refuted_by_tlc", {})["AssembledDropsSmallEntries"] = "ScalingLaw"
+    sc_cases = [c for c in ms_cases if c["kind"] == "scale"]
+    ng_cases = [c for c in ms_cases if c["kind"] == "nograd"]
+    if not sc_cases or not ng_cases:
+        raise MachineryError("MapScale emitted %d scale and %d nograd cases" % (len(sc_cases), len(ng_cases)))
+    c15_scale.check_scale(ctx, sc_cases)
+    ng_judged = c15_scale.check_nograd(ctx, ng_cases)
     oc = ctx.observations.get("outcomes", {})
+    if not ctx.violations:
+        if not oc.get("scale/MAP/estimate/direct") or not oc.get("scale/sample/draws"):
+            raise MachineryError("vacuous run: no scaled problem reached the closed-form MAP / the direct sampler (%r)" % oc)
+        if not oc.get("nograd/MAP/no-gradient") or not oc.get("nograd/ML/no-gradient"):
+            raise MachineryError("vacuous run: no problem of kind nograd was solved without exact gradient (%r)" % oc)
+        for nn in sorted(set(c["n"] for c in ng_cases)):
+            if not ng_judged.get(("MAP", nn)) or not ng_judged.get(("ML", nn)):
+                raise MachineryError("vacuous run: every estimate of size %d on the gradient-free route was flagged unsuccessful (%r)" % (nn, ng_judged))
     if not oc.get("mapproc/MAP/estimate") or not oc.get("mapproc/ML/estimate"):
         raise MachineryError("vacuous run: no MAP / ML estimate on the lists of MapProc (%r)" % oc)
     if not any(k.startswith("MAP/estimate/direct") for k in oc) or not oc.get("sample/draws"):
@@ -952,7 +995,10 @@ def run(ctx):
     if mpl:
         ctx.sample({"case": {"kind": "mapproc", "behaviour": " . ".join("Call(%s)" % k["name"] for k in mpl[0]["calls"]),
                              "calls": [{q: k[q] for q in ("name", "which", "n", "pe", "px", "limit")} for k in mpl[0]["calls"]]}})
-    ctx.traces = len(map_cases) + len(pcs) + 1 + ctx.observations.get("reassign_behaviours", 0) + len(mp_cases)
+    ex = [c for c in sc_cases if c["mdl"] == "function" and c["geo"] == "scale" and c["pf"] == "full"]
+    ctx.sample({"case": ex[0]}, limit=9)
+    ctx.sample({"case": {k: v for k, v in sorted(ng_cases, key=lambda c: (c["n"], c["which"]))[len(ng_cases) // 2].items() if not k.endswith("_q") or k == "xstar_q"}}, limit=9)
+    ctx.traces = len(map_cases) + len(pcs) + 1 + ctx.observations.get("reassign_behaviours", 0) + len(mp_cases) + len(ms_cases)
     ctx.assumptions += ["scipy BFGS / L-BFGS-B defaults (gtol 1e-5) define the tolerance of the optimisation route (gradient <= 1e-4 x scale)",
                         "sqrtcov convention cov = S S^T (code and tests/test_distribution.py; the docstring says S^T S)",
                         "an exception of MAP/ML/sample_posterior is an accepted outcome (property: 'the call fails instead of returning another point')",
@@ -987,6 +1033,12 @@ def replay(ctx, case):
             return check_mapproc(ctx, lists if len(case["calls"]) > 1 else lists[:1], wdir, guard=False)
         finally:
             tlc.cleanup(wdir)
+    if kind == "scale":
+        from cuqiverif import c15_scale
+        return c15_scale.check_scale(ctx, [dict(case, sc=case.get("pair", case["sc"]), scales=[] if "pair" in case else case["scales"])])
+    if kind == "nograd":
+        from cuqiverif import c15_scale
+        return c15_scale.check_nograd(ctx, [case])
     if kind == "route":
         from cuqiverif import tlc
         res = ctx.tlc("LinGauss", cfg="LinGauss.route.cfg", workers=1, timeout=600)
